@@ -27,6 +27,23 @@ CHECKS = {
             TB + "the Go race detector and runtime.NumGoroutine as observation sources; a watchdog time-out is read as a hang.", "5 C18"),
 }
 
+RUNTB = TB + ("ideal-digest assumption discharged by C04; task commands replaced by a recording runner; map-iteration "
+              "nondeterminism inside one invocation sampled by repetition. ")
+RUNTECH = ("exhaustive exploration of the REAL state space of small projects (byte-exact directory snapshots, every edit/run/force/failure "
+           "action from every state) judged by TLC as graph x ghost-history product (SpokRunTrace); protocol model SpokRun.tla model-checked "
+           "against the same clauses; TLC -simulate histories replayed into the code and trace-validated against the protocol model")
+for _pid, _txt in (
+    ("C01", "never a skip unless the inputs equal those of the last success"),
+    ("C02", "a task unchanged since its last success is skipped, independently of the other tasks of the run; dependency-less tasks always run"),
+    ("C14", "--force runs the whole closure, reports no skip, and leaves a cache that never justifies a wrong skip later"),
+    ("C10", "after a kill at any hook point / inside any command / a torn cache file, never a wrong skip, only normal behaviour or an explicit cache error")):
+    CHECKS[_pid] = ("SpokRun", RUNTECH,
+                    "For each of several small programs (1-3 tasks mixing literal, glob, shared and task dependencies) the real reachable state "
+                    "space of the project directory is explored to a fixpoint, so histories of any length over the action alphabet are covered; "
+                    "TLC checks the recorded graph in product with the ghost history and evaluates: " + _txt + ". The wal protocol model is "
+                    "checked exhaustively against the same clauses (and the pinned variant is refuted), and the code is shown to follow the model on "
+                    "model-generated histories.", RUNTB, "5 run/cache family")
+
 NOT_YET = {}
 
 
